@@ -296,7 +296,10 @@ class FacadeSpace(Subspace):
         """median / quantile / ema: the facade must return what the core engine returns for the
         selected value columns"""
         vals = frame[valcols[0]] if len(valcols) == 1 else frame[valcols]
-        for m, ff, cf in (("median", lambda g: g.median(), lambda g: g.median(vals)),
+        for m, ff, cf in (("agg('sum')", lambda g: g.agg("sum"), lambda g: g.sum(vals)),
+                          ("agg(np.max)", lambda g: g.agg(np.max), lambda g: g.apply(vals, np.max)),
+                          ("apply(np.min)", lambda g: g.apply(np.min), lambda g: g.apply(vals, np.min)),
+                          ("median", lambda g: g.median(), lambda g: g.median(vals)),
                           ("quantile", lambda g: g.quantile([0.5]), lambda g: g.quantile(vals, q=[0.5])),
                           ("ema", lambda g: g.ema(alpha=0.5), lambda g: g.ema(vals, alpha=0.5))):
             res.execs += 1
